@@ -263,7 +263,7 @@ func crCases(c *core.Ctx) ([]json.RawMessage, error) {
 	}
 	// ---- G. reference cycles in every position, root registered under its own name
 	{
-		body := "SPECIFICATION Spec\nCONSTANTS\n  N = 3\n  MaxRoot = 1\n  MaxOther = 1\n  Ring = FALSE\n  ModesUsed = {\"plain\", \"optional\", \"nullable\", \"array\"}\n  FatTypes = 0\n  RootForms = {\"object\"}\nINVARIANTS Theorem Emit\nCHECK_DEADLOCK FALSE\n"
+		body := "SPECIFICATION Spec\nCONSTANTS\n  N = 3\n  MaxRoot = 1\n  MaxOther = 1\n  Ring = FALSE\n  ModesUsed = {\"plain\", \"optional\", \"nullable\", \"array\"}\n  FatTypes = 0\n  RootForms = {\"object\"}\n  OptionalByDefault = FALSE\nINVARIANTS Theorem Emit\nCHECK_DEADLOCK FALSE\n"
 		n := 0
 		res, err := tlc.Run(tlc.Opts{Module: "TypeGraph", Cfg: "TypeGraph_3_1_1.cfg", Workers: 8, Files: map[string][]byte{"TypeGraph_3_1_1.cfg": []byte(body)}, OnLine: func(l string) {
 			var cs tgCase
